@@ -2,7 +2,7 @@
 import itertools
 import random
 
-from ..common import Check
+from ..common import Check, load_known_findings
 from ..harness import world as W
 from . import httpcommon as H
 
@@ -57,7 +57,13 @@ def reach(w, sk, tcfg):
     return sid, 1
 
 
-def one_cell(impl, cell, rng):
+HV = {'upgonly': {'Upgrade': 'websocket'}, 'connonly': {'Connection': 'Upgrade'},
+      'upgkeep': {'Upgrade': 'websocket', 'Connection': 'keep-alive'}}
+
+
+def one_cell(impl, cell, rng, hv=None):
+    """hv: an incomplete set of upgrade headers sent with a cell whose uh is False (by HTTP's
+    rules such a request is not an upgrade request: the table's answer for uh = FALSE applies)."""
     m, eio, tr, sk, uh, j, tcfg = cell
     if uh and sk == 'midUpgrade':
         return None     # a second, concurrent upgrade socket: outside the environment model
@@ -77,7 +83,7 @@ def one_cell(impl, cell, rng):
             q += '&sid=' + sid
         q = q.lstrip('&')
         method = METHODS[m] or rng.choice(OTHER_METHODS)
-        hdrs = {'Upgrade': 'websocket', 'Connection': 'Upgrade'} if uh else {}
+        hdrs = {'Upgrade': 'websocket', 'Connection': 'Upgrade'} if uh else dict(HV.get(hv) or {})
         ws = uh and method == 'GET'
         before = H.state_digest(w)
         nsl = len(w.slots)
@@ -94,8 +100,11 @@ def one_cell(impl, cell, rng):
         eff = classify_effect(w, r, before, after, nsl, slot, sk)
         if st == 0:
             st = 200      # a long poll that blocks has been admitted
-        return {'k': 'admit', 'm': m, 'eio': eio, 'tr': tr, 'sk': sk, 'uh': bool(uh), 'j': j,
-                'cfg': tcfg, 'status': st, 'eff': eff}
+        rec = {'k': 'admit', 'm': m, 'eio': eio, 'tr': tr, 'sk': sk, 'uh': bool(uh), 'j': j,
+               'cfg': tcfg, 'status': st, 'eff': eff}
+        if hv:
+            rec['hv'] = hv
+        return rec
     finally:
         w.close()
 
@@ -186,15 +195,67 @@ def run(tier):
                                                                     'meta': metas[ti * 400 + jx]})
     if v.rejected and not bad:
         ck.violation('trace rejected', {'n': len(v.rejected)})
+    header_variants(ck, rng)
     ck.sample(recs[5])
     ck.cov['rule'] = ('case = one request class (cell) issued to a fresh server driven to the named '
                       'session kind; the effect is classified from the difference of the complete '
                       'projected state before / after; distinct by (server, cell)')
-    ck.assume('upgrade headers are either absent or complete (Upgrade: websocket + Connection: '
-              'Upgrade); an Upgrade header without the Connection header is outside the table')
+    ck.assume('requests with an incomplete pair of upgrade headers (Upgrade without Connection: '
+              'upgrade, or the reverse) are judged by the table row of a request without upgrade '
+              'headers, which is what HTTP makes of them')
     ck.assume('a refused websocket-type request is recorded as 499 (the ASGI websocket scope has no '
               'status); either 400 or 405 is accepted when a bad method coincides with another reason')
     return ck.finish()
+
+
+def header_variants(ck, rng):
+    """Cells without upgrade headers, re-issued with an incomplete pair of them."""
+    opn, _ = load_known_findings('C12')
+    listed = {e['id']: e for e in opn}
+    recs, metas = [], []
+    for impl in ('sync', 'async'):
+        for m in ('GET', 'POST'):
+            for tr in TR:
+                for sk in SK:
+                    for c in TCFG:
+                        for hv in HV:
+                            rec = one_cell(impl, (m, '4', tr, sk, False, 'absent', c), rng, hv=hv)
+                            if rec is None:
+                                continue
+                            recs.append(rec)
+                            metas.append(impl)
+                            ck.distinct([impl, m, tr, sk, c, hv])
+
+    def contradicts(rec):
+        exp = admit(rec)
+        return rec['status'] not in exp[0] or rec['eff'] != exp[1]
+
+    def is_f26(rec):
+        # the gate of handle_request looks at the Upgrade header alone
+        return rec['m'] == 'GET' and rec['tr'] == 'websocket' and rec.get('hv') in ('upgonly', 'upgkeep')
+    known = [i for i, r in enumerate(recs) if contradicts(r) and is_f26(r) and 'F26' in listed]
+    if known:
+        ck.known_finding('F26', listed['F26']['what'])
+        ck.cov['f26_cells'] = len(known)
+    rest = [r for i, r in enumerate(recs) if i not in set(known)]
+    rmeta = [m_ for i, m_ in enumerate(metas) if i not in set(known)]
+    traces, v = H.validate(ck, rest, 'admission with an incomplete pair of upgrade headers (Upgrade '
+                                     'alone, Upgrade + Connection: keep-alive, Connection: Upgrade '
+                                     'alone): judged as requests without upgrade headers')
+    nbad = 0
+    for ti in v.rejected:
+        for jx, rec in enumerate(traces[ti]):
+            if contradicts(rec):
+                nbad += 1
+                if nbad <= 5:
+                    exp = admit(rec)
+                    ck.violation('admission decision contradicts EioHttp!Admit (%s, incomplete upgrade '
+                                 'headers %s): observed status %s effect %s, table allows status %s '
+                                 'effect %s for %r' % (rmeta[ti * 400 + jx], rec.get('hv'),
+                                                       rec['status'], rec['eff'], sorted(exp[0]),
+                                                       exp[1], rec), {'record': rec})
+    if v.rejected and not nbad:
+        ck.violation('trace rejected (header variants)', {'n': len(v.rejected)})
 
 
 def admit(e):
